@@ -13,14 +13,26 @@
    Part 1: a sink invariant that does not mention the source ([sink_wf]) and the stamp
            invariant [stamp_inv R]: every stored fragment f and every cover segment c that
            overlap in positive length satisfy R (pl f) (cv_t c), for an arbitrary relation R
-           "payload p is at least as fresh as the clock reading tau" that is downward closed.
+           "the fields p were those of the source when the clock read tau", downward closed in tau.
    Part 2: preservation by _purge_sink, the clipping loop, _stitch_at, _fill_gap, the eviction
-           pass, a whole query (any source, a different one at every fetch).
-   Part 3: the generic staleness theorems.
-   Part 4: instance "the payload carries the clock reading of its fetch" (exact stamps).
+           pass, a whole query (any source, a different answer at every fetch).
+   Part 3: the generic staleness theorems (one query from a state satisfying the invariants).
+   Part 4: instance "the payload carries the clock reading of its fetch" (exact stamps, with an
+           optional slack delta for the duration of the fetch); [reach]: every history of
+           queries and clock advances; C10_staleness, C10_staleness_output.
    Part 5: instance [crun_all] (histories with CMutate): the version of every returned event
-           was still the current one less than ttl before the eviction reading.
-   Part 6: examples (the old D14 scenario, non-vacuity, sensitivity to the fresh side). *)
+           was still the current one less than ttl before the eviction reading
+           (C10_stale_version_segment, C10_staleness_versions, C10_change_visible); the
+           clock-stamping source exists for every query (stamping_src_query).
+   Part 6: examples (the old D14 scenario, non-vacuity, sensitivity to the fresh side, sanity
+           tests of the candidate invariant by computation).
+
+   Order of "read clock / fetch source": _fill_gap first iterates source.fetch(gap), then reads
+   created = monotonic().  The model's clock only moves at readings, so in the model the fetch
+   is made "at" the [created] reading and the bound is exactly  t < stamp + ttl  (t the eviction
+   reading of the query, no tick slack).  In the code the answer of the source is older than
+   [created] by the duration of the fetch: the bound is then ttl + that duration (the delta of
+   Part 4); the model cannot see it. *)
 From CG Require Import Proofs.Defs Proofs.Stored Proofs.Diff Proofs.Merge Proofs.RefSpec Model.Cache
      Proofs.CacheInv Proofs.CacheInv2.
 From Coq Require Import Lia ZifyBool.
